@@ -20,6 +20,7 @@ RULE = (
     "{none, one cell, interior block, corner} x projection {affine, monotone non-linear} x method {linear, nearest, cubic} x antialias "
     "x {default region/shape, explicit spacing, explicit region inside the data} x named/unnamed; Dataset and 1-d/3-d inputs must raise. "
     "Non-trivial: hulls with an interior lattice query / grids with >= 3 valid cells."
+    " Added axes: projected hull forms (linear and the exact non-linear (e+2)^2 with a 41 x 21 query lattice and clouds with points along oblique sides), integer forms, float32 queries at 1e7 offsets, DataArray built three ways with / without a 2-D extra coordinate, exact nearest-neighbour value oracle incl. anti-aliasing block means."
 )
 ASSUMPTIONS = ["cases in which Qhull itself refuses the point set (collinear / fewer than 3 valid cells) are implementation-only failures, counted "
                "as outside the space", "nodes within half a cell of the hull boundary may go either way when antialiasing averages the data"]
